@@ -157,8 +157,10 @@ def float_subset_cores(Af, ss):
     Returns (cores by (f), cores by (q), attained (f)-strengths); a set qualifies for s iff its minimum strength >= s and
     the core is the union of the qualifying sets (None if that union does not qualify).  Where (f) and (q) give different
     cores the case is sensitive to one-ulp effects and the verdict rests on (f) alone (counted by the caller)."""
+    import math
     W = [[float(x) for x in row] for row in np.asarray(Af).tolist()]
-    Wq = [[Fr(x) for x in row] for row in W]
+    exact = all(math.isfinite(x) for r in W for x in r)          # inf weights: float semantics only ((q) is undefined)
+    Wq = [[Fr(x) for x in row] for row in W] if exact else None
     n = len(W)
     minsf = [None] * (1 << n); minsq = [None] * (1 << n)
     attained = set()
@@ -168,14 +170,17 @@ def float_subset_cores(Af, ss):
         for v in mem:
             acc = 0.0; accq = Fr(0)
             for w in mem:
-                acc = acc + W[w][v]; accq += Wq[w][v]
+                acc = acc + W[w][v]
+                if exact:
+                    accq += Wq[w][v]
             attained.add(acc)
             lo_f = acc if lo_f is None or acc < lo_f else lo_f
             lo_q = accq if lo_q is None or accq < lo_q else lo_q
         minsf[S] = lo_f; minsq[S] = lo_q
     outf, outq = {}, {}
     for s_ in ss:
-        for mins, out, thr in ((minsf, outf, s_), (minsq, outq, Fr(s_))):
+        todo = [(minsf, outf, s_)] + ([(minsq, outq, Fr(s_))] if exact and math.isfinite(s_) else [])
+        for mins, out, thr in todo:
             U = 0
             for S in range(1, 1 << n):
                 if mins[S] >= thr:
@@ -290,6 +295,17 @@ def run_job(job):
     bct = import_bct()
     kind, A, ks = job['kind'], job['A'], job['ks']
     n = len(A)
+    enc = lambda x: int(x)
+    if job.get('encode') == 'rank':
+        # special values (inf, 1e-300, denormals, -0.0, negative): they travel as strings; the Int model sees the signed rank of
+        # each distinct non-zero value — the k-core routines may only depend on zero / non-zero ("connection" = non-zero entry)
+        A = [[float(x) for x in r] for r in A]
+        vals = sorted({abs(x) for x in flat(A) if x != 0})
+        rk = {v: i + 1 for i, v in enumerate(vals)}
+        enc = lambda x: 0 if x == 0 else (rk[abs(float(x))] if x > 0 else -rk[abs(float(x))])
+    elif job.get('encode') == 'binary':
+        A = [[float(x) for x in r] for r in A]       # positive special weights, sent to the model as 0/1 (kcoreness: only x != 0 and x > 0 matter)
+        enc = lambda x: int(x != 0)
     out = {'viol': [], 'lines': [], 'n': n, 'kind': kind, 'status': {}, 'nontrivial': [], 'evals': 0, 'timeouts': []}
     malformed = job.get('malformed', False)
 
@@ -324,9 +340,13 @@ def run_job(job):
             Ml = [[float(x) for x in row] for row in np.asarray(M)]
             order = [[int(x) for x in g] for g in order]
             level = [[float(x) for x in g] for g in level]
-            exp_line = 'M=%s kn=%d order=%s level=%s' % (ints(flat(Ml)) if n else '', int(kn), groups(order), groups(level))
-            if all(float(x) == int(x) for g in level for x in g) and all(float(x) == int(x) for x in flat(Ml)):
-                out['lines'].append(('%s n=%d A=%s k=%d' % (func, n, ints(flat(A)), k), exp_line, func))
+            special = job.get('encode') == 'rank'
+            okM = special or all(float(x) == int(x) for x in flat(Ml))
+            exp_line = 'M=%s kn=%d order=%s level=%s' % ((','.join(str(enc(x)) for x in flat(Ml)) if okM else str(Ml)) if n else '', int(kn), groups(order), groups(level))
+            if job.get('nolean'):
+                pass
+            elif all(float(x) == int(x) for g in level for x in g) and okM:
+                out['lines'].append(('%s n=%d A=%s k=%d' % (func, n, ','.join(str(enc(x)) for x in flat(A)) or '-', k), exp_line, func))
             else:
                 viol(func, 'integral-output', exp_line, None, k=k)
             if not (np.array_equal(r2[1][0], M) and int(r2[1][1]) == int(kn)):
@@ -391,18 +411,18 @@ def run_job(job):
         # decimal (non-dyadic) weights k/10: float effects are part of the observable behaviour, so this family is judged by the
         # float subset-enumeration oracle only (the exact-rational Lean model cannot see one-ulp effects)
         func = 'score_wu'
-        Af = np.array(A, dtype=float)
+        Af = np.array([[float(x) for x in r] for r in A], dtype=float).reshape(n, n)
         _, _, attained = float_subset_cores(Af, [])
         ss = set()
         for v in attained:
             if v > 0:
                 ss.update((v, float(np.nextafter(v, np.inf)), float(np.nextafter(v, -np.inf))))
-        ss = sorted(ss)
+        ss = sorted(x for x in ss if x > 0)          # (nextafter below the smallest denormal is 0.0: s <= 0 is the k0-identity convention)
         if job.get('max_s') and len(ss) > job['max_s']:
             rs_ = np.random.RandomState(job['max_s'] + len(ss))
             ss = [ss[i] for i in sorted(rs_.choice(len(ss), size=job['max_s'], replace=False).tolist())]
         cores, cores_exact, _ = float_subset_cores(Af, ss)
-        full = [sum(Fr(x) for x in col) for col in zip(*Af.tolist())]
+        full = [sum(1 for x in col if x != 0) for col in zip(*Af.tolist())]       # non-negative weights: positive strength iff some non-zero entry
         for s_ in ss:
             r = wcall(bct.score_wu, Af.copy(), s_)
             out['evals'] += 1
@@ -426,7 +446,7 @@ def run_job(job):
                 viol(func, 'restricted-matrix', M.tolist(), want.tolist(), s=repr(s_), weights='decimal')
             if sn != bin(C).count('1'):
                 viol(func, 'size', sn, bin(C).count('1'), s=repr(s_), weights='decimal')
-            if cores_exact[s_] != C:
+            if cores_exact.get(s_, C) != C:
                 out['dec_ulp'] = out.get('dec_ulp', 0) + 1        # exact-rational semantics would give another core: verdict rests on (f)
             mem = bits(C, n)
             Wl = Af.tolist()
@@ -458,8 +478,9 @@ def run_job(job):
                 viol(func, 'raises', r[1], None, s=str(s)); continue
             M, sn = r[1]
             Mq = [[Fr(float(x)) for x in row] for row in np.asarray(M)]
-            out['lines'].append(('score_wu n=%d A=%s s=%s' % (n, ','.join(fr(x) for x in flat(Aq)) or '-', fr(s)),
-                                 'M=%s kn=%d' % (','.join(fr(x) for x in flat(Mq)), int(sn)), func))
+            if not job.get('nolean'):
+                out['lines'].append(('score_wu n=%d A=%s s=%s' % (n, ','.join(fr(x) for x in flat(Aq)) or '-', fr(s)),
+                                     'M=%s kn=%d' % (','.join(fr(x) for x in flat(Mq)), int(sn)), func))
             C = cores[s]
             if C is None:
                 viol(func, 'oracle-union-qualifies', None, None, s=str(s)); continue
@@ -497,7 +518,8 @@ def run_job(job):
     if r[0] == 'exc':
         viol(func, 'raises', r[1], None); return out
     cor, kn = [int(x) for x in r[1][0]], [int(x) for x in r[1][1]]
-    out['lines'].append(('kcoreness_%s n=%d A=%s' % (base, n, ints(flat(A))), 'coreness=%s kn=%s' % (ints(cor), ints(kn)), func))
+    if not job.get('nolean'):
+        out['lines'].append(('kcoreness_%s n=%d A=%s' % (base, n, ','.join(str(enc(x)) for x in flat(A)) or '-'), 'coreness=%s kn=%s' % (ints(cor), ints(kn)), func))
     if malformed:
         return out
     kmax = 2 * n + 1
@@ -658,12 +680,78 @@ def gen_jobs(rs, tier):
     for _ in range(1500 if th else 60):
         n = int(rs.randint(5, 9))
         jobs.append({'kind': 'c-bd', 'A': rand_dir(rs, n, rs.choice([.15, .3, .5])), 'ks': []})
+    # --- special-value weights ("connection" = non-zero entry): +-inf, 1e-8, 1e-300, denormals, huge, negative, -0.0 (= no edge)
+    SPECIAL = ['inf', '-inf', '1e-08', '9e-09', '-1e-09', '1e-300', '5e-324', '-5e-324', '1e+308', '-3.0', '2.5']
+    SPECPOS = ['inf', '1e-08', '9e-09', '1e-300', '5e-324', '1e+308', '2.5', '0.1']
+    def special_weights(A, pool, directed=False):
+        n_ = len(A)
+        B = [['0.0'] * n_ for _ in range(n_)]
+        for i in range(n_):
+            for j in range(n_):
+                if i == j or (not directed and j < i):
+                    continue
+                if A[i][j]:
+                    w = pool[int(rs.randint(len(pool)))] if rs.rand() < .7 else '1.0'
+                elif rs.rand() < .15:
+                    w = '-0.0'
+                else:
+                    continue
+                B[i][j] = w
+                if not directed:
+                    B[j][i] = w
+        return B
+    for q in range(900 if th else 120):
+        n = int(rs.randint(3, 9))
+        if q % 2 == 0:
+            A = rand_und(rs, n, rs.choice([.4, .6, .9]))
+            jobs.append({'kind': 'bu', 'A': special_weights(A, SPECIAL), 'ks': list(range(0, n + 1)), 'encode': 'rank'})
+            if q % 4 == 0:
+                jobs.append({'kind': 'c-bu', 'A': special_weights(A, SPECPOS), 'ks': [], 'encode': 'binary'})
+        else:
+            A = rand_dir(rs, n, rs.choice([.3, .5, .8]))
+            jobs.append({'kind': 'bd', 'A': special_weights(A, SPECIAL, True), 'ks': list(range(0, 2 * n)), 'encode': 'rank'})
+            if q % 4 == 1:
+                jobs.append({'kind': 'c-bd', 'A': special_weights(A, SPECPOS, True), 'ks': [], 'encode': 'binary'})
+    for q in range(400 if th else 50):          # score_wu: non-negative special weights, float oracle (s = every attained float strength +- 1 ulp)
+        n = int(rs.randint(3, 7))
+        A = rand_und(rs, n, rs.choice([.5, .8]))
+        jobs.append({'kind': 'wu-dec', 'A': special_weights(A, SPECPOS), 'ks': [], 'max_s': 60})
+    # --- size axis (also in quick): n just above powers of two, long chains (n/2 peeling rounds), degrees >= 256
+    def ring_chords(n_, c):
+        A = [[0] * n_ for _ in range(n_)]
+        for i in range(n_):
+            for d in range(1, c + 1):
+                A[i][(i + d) % n_] = A[(i + d) % n_][i] = 1
+        return A
+    for n in (33, 34, 40, 65, 100, 129, 257):
+        A = [[int(abs(i - j) == 1) for j in range(n)] for i in range(n)]                 # chain: k=2 peels it in n/2 rounds
+        jobs.append({'kind': 'bu', 'A': A, 'ks': [1, 2], 'nolean': n > 130})
+        if n <= 130:
+            A = rand_und(rs, n, rs.choice([.1, .3]))
+            dm = max(sum(r) for r in A)
+            jobs.append({'kind': 'bu', 'A': A, 'ks': sorted({1, 2, dm // 3, dm // 2, dm, dm + 1})})
+            A = rand_dir(rs, n, rs.choice([.08, .25]))
+            dm = max(sum(A[v]) + sum(r[v] for r in A) for v in range(n))
+            jobs.append({'kind': 'bd', 'A': A, 'ks': sorted({1, 3, dm // 3, dm // 2, dm, dm + 1})})
+        if n in (33, 40, 65):
+            jobs.append({'kind': 'c-bu', 'A': ring_chords(n, 3), 'ks': []})
+            jobs.append({'kind': 'c-bd', 'A': rand_dir(rs, n, .2), 'ks': []})
+    K = [[int(i != j) for j in range(257)] for i in range(257)]                          # K257: undirected degree 256
+    jobs.append({'kind': 'bu', 'A': K, 'ks': [1, 128, 255, 256, 257], 'nolean': True})
+    K = [[int(i != j) for j in range(129)] for i in range(129)]                          # complete digraph on 129 nodes: in+out degree 256
+    jobs.append({'kind': 'bd', 'A': K, 'ks': [1, 200, 255, 256, 257]})
+    D = [[int(i != j and ((i < 140 and j < 140) or rs.rand() < .03)) for j in range(170)] for i in range(170)]   # 140-node dense core, in+out ~ 280
+    jobs.append({'kind': 'bd', 'A': D, 'ks': [10, 70, 200, 270, 285], 'nolean': True})
+    jobs.append({'kind': 'c-bd', 'A': [[int(i != j and ((i < 135 and j < 135) or rs.rand() < .05)) for j in range(150)] for i in range(150)], 'ks': [], 'nolean': True})
+    Wd = [[('%g' % (((i * 7 + j * 3) % 4 + 1) / 4)) if i != j else '0' for j in range(300)] for i in range(300)]
+    Wd = [[Wd[min(i, j)][max(i, j)] if i != j else '0' for j in range(300)] for i in range(300)]                 # dense weighted n=300, strengths > 256
+    jobs.append({'kind': 'wu', 'A': Wd, 'ks': ['1', '150', '186', '187', '200', '400'], 'nolean': True})
     # --- representation axis: the same values as int64 / bool / float32 matrices, Fortran order, transposed and strided views
     reps_bin = ['int64', 'int32', 'uint8', 'bool', 'float32', 'fortran', 'tview', 'strided']
     reps_wu = ['fortran', 'tview', 'strided', 'float32']
     extra = []
     for j in jobs:
-        if j.get('malformed') or j.get('rep') or j['kind'] in ('wu-dec', 'probe') or rs.rand() > (.25 if th else .12):
+        if j.get('malformed') or j.get('rep') or j.get('encode') or len(j['A']) > 130 or j['kind'] in ('wu-dec', 'probe') or rs.rand() > (.25 if th else .12):
             continue
         if j['kind'] == 'wu':
             rep = reps_wu[rs.randint(len(reps_wu))]
@@ -682,6 +770,21 @@ def gen_jobs(rs, tier):
         jobs.append({'kind': 'bd', 'A': A, 'ks': list(range(0, n + 2)), 'malformed': True})
         jobs.append({'kind': 'c-bu', 'A': [[int(x != 0) for x in r] for r in A], 'ks': [], 'malformed': True})
     return jobs
+
+
+
+def run_driver_par(main, lines, k=8):
+    """common.run_driver on k interleaved chunks in parallel (the driver is single-threaded; large-n lines dominate)"""
+    from concurrent.futures import ThreadPoolExecutor
+    if len(lines) < 4 * k:
+        return run_driver(main, lines)
+    chunks = [lines[i::k] for i in range(k)]
+    with ThreadPoolExecutor(k) as ex:
+        outs = list(ex.map(lambda c: run_driver(main, c), chunks))
+    res = [None] * len(lines)
+    for i, o in enumerate(outs):
+        res[i::k] = o
+    return res
 
 
 def main():
@@ -732,7 +835,7 @@ def main():
         for s, c in r['status'].items():
             ck.count('status:' + s, c)
         ck.merge_counts(evaluations=r['evals'], keys=r['nontrivial'],
-                        samples=[{'kind': job['kind'], 'A': job['A'], 'ks': job['ks'][:8]}] if r['nontrivial'] else [])
+                        samples=[{'kind': job['kind'], 'A': job['A'], 'ks': job['ks'][:8]}] if r['nontrivial'] and r['n'] <= 12 and not job.get('encode') and job['kind'] != 'wu-dec' else [])
         for func, pred, detail, cond in r['viol']:
             ck.violation(func, pred, detail, cond)
         for t in r['timeouts']:
@@ -743,7 +846,7 @@ def main():
             lines.append(ln); exps.append(ex); funcs.append(fn)
     if ok:
         try:
-            outs = run_driver('Core', lines)
+            outs = run_driver_par('Core', lines)
             nd = 0
             for ln, o, ex, fn in zip(lines, outs, exps, funcs):
                 if o != ex:
